@@ -57,6 +57,14 @@ pub fn frame(out: &mut Vec<u8>, payload: &[u8], seq: u8) -> u8 {
     }
 }
 
+fn reserved23(r: &[u8]) -> [u8; 23] {
+    let mut out = [0u8; 23];
+    for (i, b) in r.iter().take(23).enumerate() {
+        out[i] = *b;
+    }
+    out
+}
+
 pub fn handshake_payload(h: &HsBody) -> Vec<u8> {
     let mut p = Vec::new();
     match h {
@@ -66,11 +74,12 @@ pub fn handshake_payload(h: &HsBody) -> Vec<u8> {
             collation,
             user,
             tail,
+            reserved,
         } => {
             p.extend_from_slice(&caps.to_le_bytes());
             p.extend_from_slice(&maxps.to_le_bytes());
             p.push(*collation);
-            p.extend_from_slice(&[0u8; 23]);
+            p.extend_from_slice(&reserved23(reserved));
             p.extend_from_slice(user);
             p.push(0);
             p.extend_from_slice(tail);
@@ -99,13 +108,14 @@ pub fn ssl_request_payload(h: &HsBody) -> Vec<u8> {
         caps,
         maxps,
         collation,
+        reserved,
         ..
     } = h
     {
         p.extend_from_slice(&(caps | CLIENT_SSL).to_le_bytes());
         p.extend_from_slice(&maxps.to_le_bytes());
         p.push(*collation);
-        p.extend_from_slice(&[0u8; 23]);
+        p.extend_from_slice(&reserved23(reserved));
     }
     p
 }
